@@ -45,6 +45,7 @@ type EntrySpec struct {
 	TimeoutS    int               `json:"timeout_s"`
 	OnLock      string            `json:"on_lock"`
 	AllowBlock  bool              `json:"allow_block"`
+	AllowBlockIn []string         `json:"allow_block_in"`
 }
 
 type Exec struct {
@@ -302,6 +303,12 @@ func (ex *Exec) runPath(st *State) (succ []*State) {
 			case concReq:
 				succ = ex.forkValues(st, x.t, x.max)
 			case abort:
+				if st.status == Blocked && x.kind == "stop" {
+					// st.block(): the goroutine under analysis waits forever on this path; the driver turns that
+					// into the no-block obligation (unless the entry allows blocking)
+					succ = []*State{st}
+					break
+				}
 				st.status = Aborted
 				st.abortK = x.kind
 				st.abortM = x.msg + st.where()
